@@ -10,6 +10,10 @@
      P<k>:<size>     as G, and prints a 4th field: sha256/64 of the first min(returned, declared size)
                      bytes, the part that belongs to the requested chunk
      c<k>            zck_get_chunk_comp_data of chunk k with a buffer of the stored size
+     M<hex>          open the file given in hex as a second context (kept open to the end of the case) and
+                     pair the two: zck_find_matching_chunks(other, this) and (this, other); prints M=<r1><r2>
+                     or M=noopen.  Pairing marks chunks valid from an index comparison alone - reads and
+                     requests afterwards must behave exactly as without it
      (a line "T <sample size> <capacity> <samples hex>" trains a zstd-format dictionary and prints dict=<hex>)
    Output: open=<0|1> then per op  <op>=<return value>/<bytes handed out by successful calls>/<sha256/64 of them>!<error state>
    (for R the bytes are those returned by all successful calls BEFORE the terminating 0 or error). */
@@ -69,6 +73,7 @@ int main(void) {
         int opened = zck_init_read(zck, fd);
         printf("open=%d", opened);
         char *save = NULL, hx[17];
+        zckCtx *others[8]; int ofds[8]; int nothers = 0;
         for(char *o = strtok_r(ops, ",", &save); o && opened; o = strtok_r(NULL, ",", &save)) {
             switch(o[0]) {
             case 'R': {
@@ -94,6 +99,15 @@ int main(void) {
             case 'v': printf(" v=%d!%d", zck_validate_checksums(zck), zck_is_error(zck)); break;
             case 'f': printf(" f=%d!%d", zck_find_valid_chunks(zck), zck_is_error(zck)); break;
             case 'e': printf(" e=%d!%d", zck_clear_error(zck) ? 1 : 0, zck_is_error(zck)); break;
+            case 'M': {
+                size_t on; unsigned char *oraw = zh_unhex(o + 1, &on);
+                int ofd = zh_memfd(oraw, on); free(oraw);
+                zckCtx *oth = zck_create();
+                if(nothers >= 8 || !zck_init_read(oth, ofd)) { printf(" M=noopen"); zck_free(&oth); close(ofd); break; }
+                others[nothers] = oth; ofds[nothers++] = ofd;
+                int r1 = zck_find_matching_chunks(oth, zck) ? 1 : 0;
+                int r2 = zck_find_matching_chunks(zck, oth) ? 1 : 0;
+                printf(" M=%d%d", r1, r2); break; }
             case 'g': case 'c': case 'G': case 'P': {
                 char *p; long k = strtol(o + 1, &p, 10);
                 zckChunk *c = nth(zck, k);
@@ -116,6 +130,7 @@ int main(void) {
         }
         printf("\n"); fflush(stdout);
         zck_free(&zck);
+        for(int j = 0; j < nothers; j++) { zck_free(&others[j]); close(ofds[j]); }
         close(fd);
         alarm(0);
         free(fh); free(ops);
